@@ -167,9 +167,7 @@ impl Converter {
                 parameter_name,
                 body,
             } => {
-                self.declare_binder();
-
-                let unique = self.get_unique(&parameter_name.index)?;
+                let unique = self.declare_binder();
 
                 let name = Name {
                     text: parameter_name.text.to_string(),
@@ -181,6 +179,8 @@ impl Converter {
                 let body = self.named_debruijn_to_name(body)?;
 
                 self.end_scope();
+
+                self.remove_unique(unique);
 
                 Term::Lambda {
                     parameter_name: name.into(),
@@ -232,9 +232,7 @@ impl Converter {
                 parameter_name,
                 body,
             } => {
-                self.declare_binder();
-
-                let unique = self.get_unique(parameter_name)?;
+                let unique = self.declare_binder();
 
                 let name = Name {
                     text: format!("i_{unique}"),
@@ -246,6 +244,8 @@ impl Converter {
                 let body = self.debruijn_to_name(body)?;
 
                 self.end_scope();
+
+                self.remove_unique(unique);
 
                 Term::Lambda {
                     parameter_name: name.into(),
@@ -488,12 +488,16 @@ impl Converter {
         scope.remove(unique, self.current_level);
     }
 
-    fn declare_binder(&mut self) {
+    fn declare_binder(&mut self) -> Unique {
         let scope = &mut self.levels[self.current_level.0];
 
-        scope.insert(self.current_unique, self.current_level);
+        let unique = self.current_unique;
+
+        scope.insert(unique, self.current_level);
 
         self.current_unique.increment();
+
+        unique
     }
 
     fn start_scope(&mut self) {
